@@ -493,7 +493,7 @@ pub fn run(ctx: &Ctx) -> i32 {
     let fails = run_tapes(ctx, "random_graphs", cases, 400, &stats, random_case);
     outcome.absorb(&known, fails);
 
-    let fuzz = fuzz_stage(ctx, &stats, &mut outcome, &known, "domtree", 8, 1_000_000, 400, &[], &|a| {
+    let fuzz = fuzz_stage(ctx, &stats, &mut outcome, &known, "domtree", 8, 300_000, 400, &[], &|a| {
         let mut t = Tape::new(a);
         let (g, _) = decode_graph(&mut t);
         check_graph(&g)
